@@ -85,3 +85,32 @@ Definition sx_opt {A} (f : A -> sx) (o : option A) : sx :=
   match o with None => SA "None" | Some x => SL [SA "Some"; f x] end.
 Definition sx_pair {A B} (f : A -> sx) (g : B -> sx) (p : A * B) : sx :=
   SL [f (fst p); g (snd p)].
+
+(* a total order on sx and insertion sort, so that results whose order is not
+   an observable (dict / set iteration) are compared as sorted lists; the
+   harness sorts with the same order (harness.core.sx_sorted) *)
+Definition cmp_then (c d : comparison) : comparison := match c with Eq => d | _ => c end.
+Fixpoint sx_compare (a b : sx) {struct a} : comparison :=
+  match a, b with
+  | SA s, SA t => String.compare s t
+  | SA _, _ => Lt
+  | SZ _, SA _ => Gt
+  | SZ x, SZ y => Z.compare x y
+  | SZ _, SL _ => Lt
+  | SL xs, SL ys =>
+      (fix go (xs ys : list sx) {struct xs} : comparison :=
+         match xs, ys with
+         | [], [] => Eq
+         | [], _ :: _ => Lt
+         | _ :: _, [] => Gt
+         | x :: xs', y :: ys' => cmp_then (sx_compare x y) (go xs' ys')
+         end) xs ys
+  | SL _, _ => Gt
+  end.
+Fixpoint sx_insert (x : sx) (l : list sx) : list sx :=
+  match l with
+  | [] => [x]
+  | y :: r => match sx_compare x y with Gt => y :: sx_insert x r | _ => x :: l end
+  end.
+Definition sx_sort (l : list sx) : list sx := fold_right sx_insert [] l.
+Definition sx_sorted_list {A} (f : A -> sx) (l : list A) : sx := SL (sx_sort (map f l)).
